@@ -2,12 +2,32 @@ import re
 from ..run import Prop
 from .. import gen, gen_sat, core
 from ..core import rec_fields, unhex, hexs
-from ..gen_sat import (ref_parse, ref_cmp, ref_satisfied, last_binding, has_big_run, dec_struct, dec_assignment,
-                       OPS, sat_case)
+from ..gen_sat import (ref_parse, ref_cmp, ref_satisfied, last_binding, cmp_panics, panic_reason, struct_of_text,
+                       dec_struct, dec_assignment, OPS, sat_case)
 
-CLS_OP = "c12-nonstandard-operator"
-CLS_I32 = "c12-debversion-i32-digit-run"
-CLS_SV = "c12-set-version-strict-operator"
+CLS_OP = "c12-nonstandard-operator"          # lossless evaluator reaches an alternative whose operator is none of the five
+CLS_I32 = "c12-debversion-i32-digit-run"     # a comparison of two versions reaches a digit run above i32::MAX
+CLS_EPOCH = "c12-unreadable-version-epoch"   # lossless evaluator reaches an alternative whose version text debversion rejects
+CLASS_OF_REASON = {"op": CLS_OP, "epoch": CLS_EPOCH, "i32": CLS_I32}
+
+def _show(v):
+    """debversion's Display of a version text (the epoch re-printed in canonical decimal)"""
+    e, u, r = ref_parse(v)
+    return ("" if e is None else str(e) + ":") + u + ("" if r is None else "-" + r)
+
+def _dump_text(d):
+    """the text of a tree dump `(kind child ...)` / `kind:hex`"""
+    return bytes.fromhex("".join(re.findall(r"\d:([0-9a-f]*)", d))).decode("utf-8")
+
+def _expected_built_text(struct, through_set_version):
+    def alt(i, r):
+        n, v = r
+        if v is None: return n
+        c = f" ({v[0]} {_show(v[1])})"
+        if through_set_version and i % 4 == 2: return f"{n}:any{c}"
+        if through_set_version and i % 4 == 3: return f"{n}:any{c} [amd64] <!nocheck>"
+        return n + c
+    return ", ".join(" | ".join(alt(i, r) for i, r in enumerate(e)) for e in struct)
 
 def _triple(rec):
     """'e:u:r' from a record -> (epoch|None, upstream, revision|None)"""
@@ -23,26 +43,30 @@ class C12(Prop):
                   'abstract version type with a total-preorder comparison: the lossless evaluator (on the typed view of the tree, on trees '
                   'built by the constructors, and through name()/version() with their unwrap sites) and the lossy evaluator both return '
                   'Ok of the Policy decision table (forall entries exists alternative: installed and operator holds); they agree '
-                  'unconditionally (same panics in the same order); the answer depends only on the function a lookup form induces, and the '
-                  'map / closure / pair forms induce the stated functions. DebVersion.v: the dpkg ordering is proved a total preorder and '
+                  'unconditionally (same panics in the same order); the answer depends only on the function a lookup induces (closure for the '
+                  'field/entry-level evaluators; map / closure / pair for lossy::Relation::satisfied_by and the alternative-by-alternative nesting around it). DebVersion.v: the dpkg ordering is proved a total preorder and '
                   "the transcription of debversion's Ord is proved equal to it whenever no digit run exceeds i32::MAX (beyond that the crate "
-                  'panics: recorded finding). Relation::set_version (with the proposed fix) writes a constraint that version() reads back. '
-                  'Ordering of the real crate: modelled external, validated by the vercmp stream.')
+                  'panics: recorded finding). Relation::set_version (as modelled by the C11 cone) writes a constraint that version() reads back; '
+                  'every field the reader accepts without error and whose accessors do not panic (C10: racc) has the typed view the theorems are about. '
+                  'Lookup forms: the field/entry-level evaluators take `impl VersionLookup + Copy`, i.e. a closure; the map and pair forms exist for '
+                  'lossy::Relation::satisfied_by only, and the theorems say so. Ordering of the real crate: modelled external, validated by the vercmp stream.')
     level_note = ('Model: Entry/Relations::satisfied_by, Relation::name/version/new/set_version(Some), From<Vec<..>> in debian-control/src/lossless/relations.rs; '
                   'Relation/Relations::satisfied_by in lossy/relations.rs; VersionLookup impls in lib.rs; VersionConstraint in relations.rs; '
                   'debversion 0.4.4 FromStr/Ord (external crate, transcribed). Architecture restrictions and build profiles are ignored by both '
-                  'evaluators and by the statement. The lossless reader rejects epochs in version text (C10, DESIGN §5 row 11): epoch cases '
-                  'reach the lossless evaluator through the constructors only.')
+                  'evaluators and by the statement. Since /repo 0eb8794 the lossless reader accepts versions with an epoch; '
+                  'the constructors and set_version/set_archqual are the definitions of the C11 cone (RelEdit.v, RelEditTree.v).')
     rule = ("vercmp: corpus x corpus, every pair of strings of length <= 2 (3 thorough) over a 9(8)-symbol version alphabet, generated "
             "versions and their near mutants, malformed strings; sat: the exhaustive operator x presence decision table for shapes "
             "1x1, 1x2, 2x1 (2x2 sampled in quick, exhaustive in thorough) + generated fields with assignments (absent / lower / equal / "
-            "equal-written-differently / higher / unrelated / duplicate bindings), epochs, empty entries, the two finding classes; "
+            "equal-written-differently / higher / unrelated / duplicate bindings), epochs, empty entries, the three finding classes and "
+            "their neighbourhood (a big digit run that is never compared, or decided before it is reached); the records carry the tree "
+            "dumps of the constructor-built and set_version-built fields (kinds and positions of every token); "
             "sat-text: repo literals, exhaustive short strings, whitespace-rich generated fields and their mutations. "
             "non-trivial = a versioned alternative whose package is installed (sat), both versions parse (vercmp)")
     trusted = ["Coq 8.16.1 kernel",
-               "hand-written Coq transcription of satisfied_by (both evaluators), Relation::name/version/new, the From<Vec<..>> builders and the three VersionLookup impls, tied to the code by the sat and sat-text correspondence streams",
+               "hand-written Coq transcription of satisfied_by (both evaluators), Relation::name/version and the three VersionLookup impls; the constructors and set_version/set_archqual are the C11 cone's (RelEdit.v, RelEditTree.v); tied to the code by the sat (answers and tree dumps) and sat-text correspondence streams",
                "debversion 0.4.4 (FromStr regex, Ord) transcribed in DebVersion.v and validated by the vercmp stream; the dpkg reference ordering is additionally compared with an independent Python transcription of dpkg's verrevcmp",
-               "the relations lexer/parser model of C09 (RelLex.v, RelParse.v) for the text-based parts",
+               "the relations lexer/parser model of C09 (RelLex.v, RelParse.v), the accessor model and grammars of C10 (RelAcc.v, RelGrammar.v, RelGrammarAll.v) for the parsed path",
                "std: Iterator::all/any short-circuit order, PartialOrd provided methods, HashMap insert/get (association list with unique keys)",
                "extraction (ExtrOcamlBasic only), OCaml runner, Rust harness, Python driver"]
     assumptions = ["the version comparison is a total preorder (proved for the dpkg reference; debversion's agrees with it when no digit run exceeds 2^31-1)",
@@ -113,6 +137,11 @@ class C12(Prop):
         for k in ("lc", "yc", "ym", "sv"):
             if r[k] != want:
                 return f"{k} = {r[k]}, Debian semantics say {want}"
+        for k, via in (("lcd", False), ("svd", True)):
+            if _dump_text(r[k]) != _expected_built_text(struct, via):
+                return f"{k}: the built field prints as {_dump_text(r[k])!r}, expected {_expected_built_text(struct, via)!r}"
+            if "3:7c" in r[k]:
+                return f"{k}: '|' stored under kind COMMA"
         if asg:
             k0, v0 = asg[0]
             wantp = "1" if ref_satisfied(struct, lambda n: v0 if n == k0 else None) else "0"
@@ -127,10 +156,8 @@ class C12(Prop):
                 return f"lossy reader + evaluator = {r['ly']}, expected {want}"
             if r["rt"] != "1":
                 return "lossy reader does not read the rendered field back as the structure"
-            epoch_text = any(v is not None and ":" in v[1] for e in struct for (_, v) in e)
             if r["ll"] == "ERR" or r["ne"] != "0":
-                if not epoch_text:
-                    return "lossless reader rejects a well-formed field"
+                return "lossless reader rejects a well-formed field"
             else:
                 if r["ll"] != want or r["lr"] != want:
                     return f"lossless reader + evaluator = {r['ll']}/{r['lr']}, expected {want}"
@@ -182,35 +209,40 @@ class C12(Prop):
 
     # ------------------------------------------------------------ known findings
     def known_class(self, stream, fields, impl, model, why):
+        """The class of a failure = the reason of the FIRST panic on the evaluation path, recomputed here
+        from the case (gen_sat.panic_reason walks entries and alternatives in the evaluators' order).
+        Nothing else is forgiven: a panic the walk does not predict, or predicts for another reason,
+        stays a fresh failure."""
         if "PANIC" not in (why or "") and "PANIC" not in impl:
             return None
         if stream == "vercmp":
-            if has_big_run(unhex(fields[0])) or has_big_run(unhex(fields[1])):
-                return CLS_I32
-            return None
+            a, b = unhex(fields[0]), unhex(fields[1])
+            return CLS_I32 if (cmp_panics(a, b) or cmp_panics(b, a)) else None
+        r = rec_fields(impl)
         if stream == "sat":
             struct = dec_struct(fields[1]); asg = dec_assignment(fields[2])
-            vers = [v[1] for e in struct for (_, v) in e if v is not None] + [v for _, v in asg]
-            if any(has_big_run(v) for v in vers):
-                return CLS_I32
-            r = rec_fields(impl)
+            look = last_binding(asg)
+            pair = (lambda n: asg[0][1] if n == asg[0][0] else None) if asg else (lambda n: None)
             clean = r.get("ne") == "0"      # a tolerant-reader tree with errors is not judged
-            panicking = [k for k in ("ll", "lr", "ly", "rt", "lc", "yc", "ym", "yp", "sv")
-                         if r.get(k) == "PANIC" and (k != "lr" or clean)]
-            if panicking == ["sv"] and not ("P" in r.get("le", "") and clean) and \
-               any(v is not None and v[0] in (">>", "<<") for e in struct for (_, v) in e):
-                return CLS_SV
-            if any(v is not None and v[0] not in OPS for e in struct for (_, v) in e):
-                return CLS_OP
+            reasons = []
+            for k in ("ll", "lr", "ly", "rt", "lc", "yc", "ym", "yp", "sv"):
+                if r.get(k) != "PANIC" or (k == "lr" and not clean):
+                    continue
+                reasons.append(panic_reason(struct, pair if k == "yp" else look, lossless_text=k in ("ll", "lr")))
+            if "P" in r.get("le", "") and clean:
+                for e, c in zip(struct, r["le"]):
+                    if c == "P":
+                        reasons.append(panic_reason([e], look, lossless_text=True))
+            # every panic in the record must be one the walk predicts; the failure is filed under the
+            # first of them (the field-level evaluator's, when it panicked)
+            if reasons and all(x in CLASS_OF_REASON for x in reasons):
+                return CLASS_OF_REASON[reasons[0]]
             return None
-        text = unhex(fields[0])
-        asg = dec_assignment(fields[1])
-        if has_big_run(text) or any(has_big_run(v) for _, v in asg):
-            return CLS_I32
-        for m in re.finditer(r"\(\s*([<>=]*)", text):
-            if m.group(1) not in OPS:
-                return CLS_OP
-        return None
+        # sat-text: the strict reader accepted the text and the evaluator panicked
+        struct = struct_of_text(unhex(fields[0]))
+        if struct is None:
+            return None
+        return CLASS_OF_REASON.get(panic_reason(struct, last_binding(dec_assignment(fields[1])), lossless_text=True))
 
     # ------------------------------------------------------------ search support
     def neighbours(self, stream, fields):
